@@ -14,15 +14,15 @@ THEOREMS = ["C19_names_the_method", "C19_which_errors_render_the_call", "C19_ren
             "C19_arguments_in_declaration_order", "C19_argument_i_is_parameter_i", "C19_separators",
             "C19_deref_chain_reaches_the_value", "C19_pattern_is_named", "C19_pattern_text",
             "C19_mismatch_positions", "C19_mismatch_positions_independent", "C19_mismatch_values",
-            "C19_instantiation", "C19_verification_lines", "C19_core_rendering", "C19_nonvacuous"]
+            "C19_instantiation", "C19_verification_lines", "C19_core_rendering", "C19_impossible_keeps_its_position", "C19_nonvacuous"]
 
 RULE = ("one generated trait per case: method m of arity 0..5 whose parameter types are drawn from the class grammar "
-        "(i32/String/str/Option<i32>/non-Debug enum/generic T/generic U: Debug, behind 0-3 `&`, `&mut`, slices) plus a "
+        "(i32/String/str/Option<i32>/non-Debug enum/generic T/generic U: Debug, behind 0-3 `&`, `&mut`, slices; and `&mut Lt<'_>`, the Impossible class) plus a "
         "parameterless method aux; 1-3 matching! invocations per case (literals, ranges, or-patterns, bindings, x @ p, &p, (p), "
         "paths, Some(p), slice patterns with rest, eq!/ne!, wildcards; comma form, parenthesised alternatives, constant guards) "
         "written on generator-chosen lines of src/gen.rs, some spread over several lines; a clause setup for each error kind "
         "(NoMockImplementation, NoMatchingCallPatterns with 1-3 patterns, InputsNotMatchedInCallOrder, NoOutputAvailable, "
-        "ExplicitPanic, CallOrderNotMatched with and without expected pattern, CannotReturnValueMoreThanOnce, NoMatcherFunction "
+        "ExplicitPanic, CallOrderNotMatched with and without expected pattern and at every slot of an n_times(k) pattern in line, CannotReturnValueMoreThanOnce, NoMatcherFunction "
         "by index and by hand-registered pat_debug, CannotUnmock, NoDefaultImpl, verification lines, MockNeverCalled); argument "
         "tuples searched in the finite domain so that they fail (or match) as the kind needs.  Compared projection: class of "
         "panic, Trait::method, argument renderings in order, pattern path/text/file/line or index, per mismatch (pattern index "
@@ -37,7 +37,8 @@ def TB(b): return ("B", b)
 def TR(m, t): return ("R", m, t)
 def TS(t): return ("S", t)
 
-RUST_BASE = {"Int": "i32", "Str": "str", "String": "String", "Nd": "Nd", "Opt": "Option<i32>", "Gen": "T", "GenD": "U"}
+RUST_BASE = {"Int": "i32", "Str": "str", "String": "String", "Nd": "Nd", "Opt": "Option<i32>", "Gen": "T", "GenD": "U",
+             "Imp": "&mut Lt<'_>"}     # the whole parameter type: a unique borrow of a type with a lifetime = the macro's Impossible class
 
 
 def rust_ty(t):
@@ -87,6 +88,7 @@ TYPE_POOL = (
     + [refs(n, TB("GenD")) for n in (0, 1, 2)]
     + [TR(False, TS(TB(b))) for b in ("Int", "Int", "Nd", "Gen", "GenD")] + [TR(True, TS(TB("Int")))]
     + [TR(False, TS(TR(False, TB("Int"))))]
+    + [TB("Imp"), TB("Imp")]
 )
 
 # ---- mirror of Macro/Debug.v (used only to steer generation away from programs rustc rejects)
@@ -120,7 +122,7 @@ def gen_value(rng, t):
     if c[0] == "S":
         return ("L", [gen_value(rng, c[1]) for _ in range(rng.choice([0, 1, 1, 2, 2, 3]))])
     b = c[1]
-    if b in ("Int", "Gen", "GenD"): return ("I", rng.choice(DOM_INT))
+    if b in ("Int", "Gen", "GenD", "Imp"): return ("I", rng.choice(DOM_INT))
     if b in ("Str", "String"): return ("Str", rng.choice(DOM_STR))
     if b == "Nd": return ("C", rng.choice("AB"), [])
     return rng.choice([("C", "None", []), ("C", "Some", [("I", rng.choice(DOM_INT[:3]))])])
@@ -137,6 +139,7 @@ def rust_val(t, v):
         return ("&mut " if t[1] else "&") + rust_val(inner, v)
     b = t[1]
     if b in ("Int", "Gen", "GenD"): return str(v[1])
+    if b == "Imp": return f"&mut Lt({v[1]}, std::marker::PhantomData)"
     if b == "String": return f'"{v[1]}".to_string()'
     if b == "Nd": return "Nd::" + v[1]
     return "None" if v[1] == "None" else f"Some({v[2][0][1]})"
@@ -250,6 +253,8 @@ def gen_subpat(rng, t, fresh, refutable_bias=0.75):
     c = core(t)
     owned = t[0] == "B"
     opts = []
+    if t == TB("Imp"):
+        return ("wild",)        # the input is `Impossible`: only `_` can be written for it
     if c[0] == "S":
         e = c[1]
         def elem():
@@ -452,15 +457,19 @@ def gen_case(rng, scenario, arity):
             vs2 = search_tuple(rng, sig, lambda w: input_accepts(inp, w)) or vs
             case["calls"] = [(0, vs), (0, vs2)]
     elif scenario == "wrong_order":
+        # the pattern in line may cover several calls (n_times(k)) of which some, but not all, have been made: the expected
+        # pattern must be named at every slot of its range, not only at the first
         inp = gen_input(rng, sig)
-        a, b = clause(1, "next", add(aux_in), ret), None
-        b = clause(0, "next", add(inp), ret)
+        ka, kb = rng.choice([1, 1, 2, 3]), rng.choice([1, 1, 2, 3])
+        a = clause(1, "next", add(aux_in), ret + ([("n", ka)] if ka > 1 else []))
+        b = clause(0, "next", add(inp), ret + ([("n", kb)] if kb > 1 else []))
+        ok = search_tuple(rng, sig, lambda w: input_accepts(inp, w))
         if rng.random() < 0.5:
             case["clauses"] = [a, b]
-            case["calls"] = [(0, anyvals())]
+            case["calls"] = [(1, [])] * rng.randint(0, ka - 1) + [(0, anyvals())]
         else:
             case["clauses"] = [b, a]
-            case["calls"] = [(1, [])]
+            case["calls"] = [(0, ok)] * (rng.randint(0, kb - 1) if ok is not None else 0) + [(1, [])]
     elif scenario == "no_matcher":
         variant = rng.choice(["index0", "index1", "manual"])
         if variant == "manual":
@@ -614,6 +623,7 @@ def render_gen_rs(cases):
     em.emit("use unimock::*;")
     em.emit("#[derive(Clone, Copy, PartialEq)]")
     em.emit("pub enum Nd { A, B }")
+    em.emit("pub struct Lt<'a>(pub i32, pub std::marker::PhantomData<&'a mut ()>);")
     em.emit("pub struct NC(pub i32);")
     em.emit()
     for k, c in enumerate(cases):
